@@ -176,7 +176,7 @@ func (c *Ctx) panicDischargers(r *Report, reach map[*ssa.Function]bool) []panicD
 			n := 0
 			for _, row := range rows {
 				isRB := false
-				for _, a := range row.P.Atoms {
+				for _, a := range row.Atoms {
 					if a.Kind == "type" && a.Pos && a.Subj == "$1" && a.Val == "*expr.RangeBoundary" {
 						isRB = true
 					}
@@ -559,12 +559,12 @@ func rulePHLINEARcore(c *Ctx, r *Report) {
 	rows, _ := c.successSkeletons(dr.SerParam)
 	for _, row := range rows {
 		typ := "default"
-		for _, a := range row.P.Atoms {
+		for _, a := range row.Atoms {
 			if a.Kind == "type" && a.Pos && a.Subj == "$1" {
 				typ = a.Val
 			}
 		}
-		if typ == "*expr.Expression" || typ == "[]*expr.Expression" || typ == "*expr.RangeBoundary" || hasAtom(row.P.Atoms, "$1==nil") {
+		if typ == "*expr.Expression" || typ == "[]*expr.Expression" || typ == "*expr.RangeBoundary" || hasAtom(row.Atoms, "$1==nil") {
 			continue
 		}
 		params := c.key(row.P.Ret.Results[1], row.P.Env)
